@@ -102,6 +102,12 @@ class RealBuildHang(Exception):
 def real_run(script, option, n_iter=None, calls=None):
     """Drive the real build of the working tree. Returns (data list, t list)."""
     e = real_engine(option)
+    # like record_setup: the engine OBJECT has been used before (one finalized and one abandoned set-up of other scripts)
+    from .glue import _decoys, _DECOYS
+    for decoy in _decoys():
+        e.setup(decoy)
+        if decoy is _DECOYS[0]:
+            e.finalize()
     e.setup(script)
     try:
         if calls is not None:
